@@ -272,12 +272,12 @@ func c19Run(c *Ctx) {
 	}
 	maxK := 4
 	if c.Thorough() {
-		maxK = 5
+		maxK = 6
 	}
 	for k := 1; k <= maxK; k++ {
 		n := len(c19Lexemes)
-		if k == 5 {
-			n = 32
+		if k == 6 {
+			n = 18
 		}
 		if !seqEnum(c, n, k, func(idx []int) bool { return do(c19Case{Lex: append([]int{}, idx...)}, k) }) {
 			return
@@ -293,7 +293,7 @@ func init() {
 			"Non-trivial: the input contains a newline, a quote, a backslash, a comment or a multi-byte character",
 		Bounds: func(tier string) map[string]any {
 			if tier == "thorough" {
-				return map[string]any{"lexemes": len(c19Lexemes), "seq_len": 4, "seq_len_first_32_lexemes": 5, "corpus": len(c19Corpus)}
+				return map[string]any{"lexemes": len(c19Lexemes), "seq_len": 5, "seq_len_first_18_lexemes": 6, "corpus": len(c19Corpus)}
 			}
 			return map[string]any{"lexemes": len(c19Lexemes), "seq_len": 4, "corpus": len(c19Corpus)}
 		},
